@@ -7,9 +7,8 @@ TEXTS = {
         'text': "Lean theorems over all sizes/chunks/thresholds (unbounded Nat): ranges tile, upload parts tile, copy sizes sum, "
                 "effective part size in [5MiB,5GiB], n<=10000 up to 5TiB, chunk size changed only when a limit requires; constants "
                 "regenerated from source; model tied to the code by differential correspondence (exhaustive small domain + "
-                "real-scale boundaries) and end-to-end request logs. Partial: the float ceiling of the code is compared with the "
-                "exact ceiling below 2^52 by the correspondence, not proved.",
-        'note': COMMON_NOTE + "IEEE-754 ceil(size/float(c)) = exact ceiling below 2^52 is sampled, not proved. Known finding D13.",
+                "real-scale boundaries) and end-to-end request logs. The float ceiling the code computes is modelled exactly and proved (see below).",
+        'note': COMMON_NOTE + "That CPython's float division is IEEE-754 binary64 round-to-nearest-even (what S3V.Model.Float53 defines) is checked by bit-for-bit comparison, not proved; Mathlib tactics in the float lemmas. Known finding D13.",
         'technique': "Lean 4 proof (induction/omega over a Nat model) + differential correspondence",
     },
     'C12': {
@@ -279,7 +278,7 @@ NOT_APPLICABLE = []
 
 
 # additions of the extension session (serial manager, special files, chained submissions, caller's dict, legacy histories)
-_EXTRA = {'C03': " Serial manager (executor_cls=NonThreadedExecutor, boto3's use_threads=False): Lean model S3V.Serial whose except-clause tables are generated from Task.__call__ / NonThreadedExecutor.submit / BoundedExecutor.submit / SubmissionTask._main; for every plan a manager builds and every outcome of every main (success, ordinary exception, KeyboardInterrupt): result() raises exactly the first failure and succeeds only if no main raised (serial_no_false_success, serial_first_failure_reported); correspondence of the model with the real classes on random plans; exhaustive serial sweep (every request / read / write / file-system position failed once with an ordinary exception and once with Ctrl-C). Found D18 (repaired).", 'C04': " Serial manager (executor_cls=NonThreadedExecutor, boto3's use_threads=False): Lean model S3V.Serial whose except-clause tables are generated from Task.__call__ / NonThreadedExecutor.submit / BoundedExecutor.submit / SubmissionTask._main; for every plan a manager builds and every outcome of every main (success, ordinary exception, KeyboardInterrupt): done is announced and the call returns (serial_future_done), no permit is left for the next transfer to wait for (serial_no_permit_left); serial sweep with a second transfer on the same manager. Found D19 (repaired).", 'C05': " Serial manager (executor_cls=NonThreadedExecutor, boto3's use_threads=False): Lean model S3V.Serial whose except-clause tables are generated from Task.__call__ / NonThreadedExecutor.submit / BoundedExecutor.submit / SubmissionTask._main; for every plan a manager builds and every outcome of every main (success, ordinary exception, KeyboardInterrupt): no main runs after the first failure — no part, no CompleteMultipartUpload — and the failure cleanups ran (serial_nothing_after_failure); serial sweep.", 'C06': " Serial manager (executor_cls=NonThreadedExecutor, boto3's use_threads=False): Lean model S3V.Serial whose except-clause tables are generated from Task.__call__ / NonThreadedExecutor.submit / BoundedExecutor.submit / SubmissionTask._main; for every plan a manager builds and every outcome of every main (success, ordinary exception, KeyboardInterrupt): the rename of a single-request download runs exactly when the GET's main returned normally (serial_rename_only_after_complete_get); serial sweep watching the destination path. Found D18 (repaired).", 'C12': " Serial manager (executor_cls=NonThreadedExecutor, boto3's use_threads=False): Lean model S3V.Serial whose except-clause tables are generated from Task.__call__ / NonThreadedExecutor.submit / BoundedExecutor.submit / SubmissionTask._main; for every plan a manager builds and every outcome of every main (success, ordinary exception, KeyboardInterrupt): every permit taken has been given back (serial_permits_restored); serial sweep checking all manager semaphores. Found D19 (repaired).", 'C02': ' Serial manager: serial_success_means_every_step_ok (Lean) and the exhaustive serial sweep (also retried stream faults, destinations that cannot seek incl. special files given by name); several downloads through one legacy S3Transfer object compared with downloads on objects of their own.', 'C08': ' Serial manager sweep (every fault position, Ctrl-C included) and subscribers whose on_done submits the next transfer; in a hung run every subscriber whose on_done never ran is reported.', 'C09': ' Serial manager sweep incl. destination faults that are TimeoutError / ConnectionError subclasses (must not be retried as stream errors).', 'C16': " End to end: explorer and serial sweep with the judge 'what was written to a destination that cannot seek is at every instant a prefix of the object' (streams and special files, objects smaller and larger than io_chunksize, retried faults).", 'C15': " caller_dict_oracle: one extra_args dict object reused from call to call under both checksum configurations — each transfer's requests equal those of a private-copy run and the library leaves the caller's dict unchanged.", 'C18': ' Legacy front-end: several downloads through one S3Transfer object, some failing locally or on the stream, each compared with the same download on an object of its own.', 'C14': ' The upload correspondence (part bodies of the three input managers vs the model) and the end-to-end upload oracle also run under this property: EntityTooSmall is enforced by the fake service at real scale (threshold above the effective part size and not a multiple of it included).', 'C11': ' Part buffers are also counted by reachability (weak references) at every buffer creation in every run, failed and cancelled ones included: reachable and unclosed buffers <= max_in_memory_upload_chunks + max_submission_concurrency + max_request_concurrency.'}
+_EXTRA = {'C17': " Source tie by translation: extract.gen_coordstep executes set_result / set_exception / cancel / set_status_to_queued / set_status_to_running / TransferFuture.set_exception of the working tree symbolically, path by path, and writes them as the Lean function Gen.coordStep; coord_step_from_source proves it equal to the model's step for every state and operation; coord_locking_from_source (all field writes under the state lock, no announce_done under it) and announce_order_from_source are generated facts checked by decide. Threaded runs have a scheduling point inside cancel()'s critical section.", 'C07': " 36 fixed scenarios (Ctrl-C while shutdown() / the with-block exit waits, with work queued behind one request thread) run first in every exploration; the cooperative executor implements shutdown(cancel_futures=True) and Future.cancel(); a transfer whose status is cancelled but whose done event was never set counts as never finishing.", 'C03': " Serial manager (executor_cls=NonThreadedExecutor, boto3's use_threads=False): Lean model S3V.Serial whose except-clause tables are generated from Task.__call__ / NonThreadedExecutor.submit / BoundedExecutor.submit / SubmissionTask._main; for every plan a manager builds and every outcome of every main (success, ordinary exception, KeyboardInterrupt): result() raises exactly the first failure and succeeds only if no main raised (serial_no_false_success, serial_first_failure_reported); correspondence of the model with the real classes on random plans; exhaustive serial sweep (every request / read / write / file-system position failed once with an ordinary exception and once with Ctrl-C). Found D18 (repaired).", 'C04': " CountCallbackInvoker.increment / decrement / finalize are translated path by path from utils.py into Lean functions (Gen.cci*) and proved equal to the model's (cci_from_source), so cci_handoff is about the code; cci_locking_from_source. Serial manager (executor_cls=NonThreadedExecutor, boto3's use_threads=False): Lean model S3V.Serial whose except-clause tables are generated from Task.__call__ / NonThreadedExecutor.submit / BoundedExecutor.submit / SubmissionTask._main; for every plan a manager builds and every outcome of every main (success, ordinary exception, KeyboardInterrupt): done is announced and the call returns (serial_future_done), no permit is left for the next transfer to wait for (serial_no_permit_left); serial sweep with a second transfer on the same manager. Found D19 (repaired).", 'C05': " Serial manager (executor_cls=NonThreadedExecutor, boto3's use_threads=False): Lean model S3V.Serial whose except-clause tables are generated from Task.__call__ / NonThreadedExecutor.submit / BoundedExecutor.submit / SubmissionTask._main; for every plan a manager builds and every outcome of every main (success, ordinary exception, KeyboardInterrupt): no main runs after the first failure — no part, no CompleteMultipartUpload — and the failure cleanups ran (serial_nothing_after_failure); serial sweep.", 'C06': " Serial manager (executor_cls=NonThreadedExecutor, boto3's use_threads=False): Lean model S3V.Serial whose except-clause tables are generated from Task.__call__ / NonThreadedExecutor.submit / BoundedExecutor.submit / SubmissionTask._main; for every plan a manager builds and every outcome of every main (success, ordinary exception, KeyboardInterrupt): the rename of a single-request download runs exactly when the GET's main returned normally (serial_rename_only_after_complete_get); serial sweep watching the destination path. Found D18 (repaired).", 'C12': " Serial manager (executor_cls=NonThreadedExecutor, boto3's use_threads=False): Lean model S3V.Serial whose except-clause tables are generated from Task.__call__ / NonThreadedExecutor.submit / BoundedExecutor.submit / SubmissionTask._main; for every plan a manager builds and every outcome of every main (success, ordinary exception, KeyboardInterrupt): every permit taken has been given back (serial_permits_restored); serial sweep checking all manager semaphores. Found D19 (repaired).", 'C02': ' Serial manager: serial_success_means_every_step_ok (Lean) and the exhaustive serial sweep (also retried stream faults, destinations that cannot seek incl. special files given by name); several downloads through one legacy S3Transfer object compared with downloads on objects of their own.', 'C08': ' Serial manager sweep (every fault position, Ctrl-C included) and subscribers whose on_done submits the next transfer; in a hung run every subscriber whose on_done never ran is reported.', 'C09': ' Serial manager sweep incl. destination faults that are TimeoutError / ConnectionError subclasses (must not be retried as stream errors).', 'C16': " End to end: explorer and serial sweep with the judge 'what was written to a destination that cannot seek is at every instant a prefix of the object' (streams and special files, objects smaller and larger than io_chunksize, retried faults).", 'C15': " caller_dict_oracle: one extra_args dict object reused from call to call under both checksum configurations — each transfer's requests equal those of a private-copy run and the library leaves the caller's dict unchanged.", 'C18': ' Legacy front-end: several downloads through one S3Transfer object, some failing locally or on the stream, each compared with the same download on an object of its own.', 'C14': ' The float computation the code performs (int(math.ceil(size / float(part_size)))) is modelled exactly (S3V.Model.Float53: binary64 quotient, round to nearest even, as a rational) and proved equal to the exact ceiling for every size below 2^53 (float_ceil_exact; float_quotient_error; tight: float_ceil_inexact_beyond); the model quotient is compared with CPython bit for bit. The upload correspondence (part bodies of the three input managers vs the model) and the end-to-end upload oracle also run under this property: EntityTooSmall is enforced by the fake service at real scale (threshold above the effective part size and not a multiple of it included).', 'C11': ' Part buffers are also counted by reachability (weak references) at every buffer creation in every run, failed and cancelled ones included: reachable and unclosed buffers <= max_in_memory_upload_chunks + max_submission_concurrency + max_request_concurrency.'}
 for _p, _x in _EXTRA.items():
     TEXTS[_p]['text'] = TEXTS[_p]['text'] + _x
 
